@@ -853,9 +853,10 @@ HashIsAWordCharacter ==
 QuotesMustBalance ==
     (Mode = "lex" /\ \A i \in 1..Len(kase.s) : kase.s[i] \notin {"'", "\\"}) =>
         (Cardinality({i \in 1..Len(kase.s) : kase.s[i] = "\""}) % 2 = 1) = Words(<<"K">> \o kase.s).err
+LexCode(ch) == CASE ch = " " -> 1 [] ch = "\t" -> 2 [] ch = "=" -> 3 [] ch = "x" -> 4 [] ch = "#" -> 5
+                 [] ch = "\"" -> 6 [] ch = "'" -> 7 [] OTHER -> 8
 RECURSIVE LexHash(_)
-LexHash(s) == IF s = <<>> THEN 5 ELSE (LexHash(Tail(s)) * 31 + Len(Head(s)) + (IF Head(s) = "#" THEN 7 ELSE 0)
-                                        + (IF Head(s) = "x" THEN 3 ELSE 0)) % 100003
+LexHash(s) == IF s = <<>> THEN 5 ELSE (LexHash(Tail(s)) * 11 + LexCode(Head(s))) % 100003
 
 Init ==
     \/ /\ Mode = "lex"
